@@ -25,6 +25,12 @@ def run_decoder_traces(ctx, families, n, kinds, what, prefix="dec", shards=None)
                 tot[k] += d.get(k, 0)
             continue
         if d.get("diag") in kinds:
+            if d.get("diag") == "panic while rendering through raster/vec":
+                # identified by where the panic comes from and what it says (package of the innermost frame : message),
+                # not by the input: known_findings.json lists one such place
+                ctx.violation("vecpanic:%s" % d.get("want"), what + ": panic while rendering through raster/vec (%s), e.g. input %s"
+                              % (d.get("want"), d.get("id")), d)
+                continue
             ctx.violation("%s:%s" % (d.get("diag"), d.get("id")), what + ": " + str(d.get("diag")), d)
         else:
             other += 1
